@@ -322,8 +322,36 @@ func (s *Svc) ClosureResult(ctx context.Context, want int, cb func(ctx context.C
 	return fmt.Sprintf("%v|%v", v, err), nil
 }
 
+type boomErr struct{ msg *string }
+
+// Error dereferences its receiver's field: it panics for a typed-nil *boomErr and for one without a message.
+func (e *boomErr) Error() string { return *e.msg }
+
+// BadErr returns an error value whose Error method panics.
+func (s *Svc) BadErr(ctx context.Context, kind int) error {
+	s.log(ctx, "BadErr", fmt.Sprint(kind))
+	if kind == 0 {
+		var e *boomErr // the classic typed-nil error
+		return e
+	}
+	return &boomErr{}
+}
+
+// BadErrVal is the two-result variant.
+func (s *Svc) BadErrVal(ctx context.Context, kind int) (int, error) {
+	s.log(ctx, "BadErrVal", fmt.Sprint(kind))
+	if kind == 0 {
+		var e *boomErr
+		return 1, e
+	}
+	return 1, &boomErr{}
+}
+
 func (s *Svc) Panic(ctx context.Context, msg string) error {
 	s.log(ctx, "Panic", msg)
+	if msg == "\x00nonerror" {
+		panic(42)
+	}
 	panic(errors.New(msg))
 }
 
@@ -406,6 +434,8 @@ type Remote struct {
 	KeepTwo      func(ctx context.Context, slot int, a func(ctx context.Context, i int, str string) (string, error), b func(ctx context.Context, i int, str string) (string, error)) (string, error)
 	GateThenCall func(ctx context.Context, gate int, cb func(ctx context.Context, i int, str string) (string, error)) (string, error)
 	Panic       func(ctx context.Context, msg string) error
+	BadErr      func(ctx context.Context, kind int) error
+	BadErrVal   func(ctx context.Context, kind int) (int, error)
 	ClosureTypes  func(ctx context.Context, row int, cb func(ctx context.Context, a int, b float64, c bool, d string, e []int, f []string, g uint8, h []float64, i []bool, j int64) (string, error)) (string, error)
 	ClosureResult func(ctx context.Context, want int, cb func(ctx context.Context, k int) ([]int, error)) (string, error)
 	EchoAll     func(ctx context.Context, a int, b string, c []byte, d []int, e map[string]int, f Inner, g *Inner, h float64, i bool, j []string, k [][]int, l *int) (All, error)
